@@ -667,10 +667,36 @@ def rule_counters_after_reset(prog, fixture=False, rule_id="R-C10-7"):
     return r
 
 
+# ---------------------------------------------------------------- R-C10-8
+STATIC_ALLOWED = {("DFS::CIReg::get_command_map", "instance"): "the command registry singleton (filled at start-up, before any image is read)"}
+
+
+def rule_no_carried_static_state(prog, fixture=False):
+    r = RuleResult("R-C10-8", "no function of dfs keeps modifiable state in a function-local static (a cache shared "
+                   "by every reader object): what is returned for one image never depends on what was read from "
+                   "another", floor=0 if fixture else 3)
+    for fn in prog.functions.values():
+        for v in fn.walk():
+            if v.get("k") != "VarDecl" or not v.get("sl"):
+                continue
+            written = [x for x in fn.walk() for d, _ in flow.written_decls(x) if d == v["d"]]
+            key = "%s::%s::static %s" % (fn.relfile(), fn.qn, v.get("n"))
+            if not written:
+                r.add(key, fn.loc(v), True, "never modified after initialisation", nontrivial=False)
+                continue
+            allowed = STATIC_ALLOWED.get((fn.qn, v.get("n")))
+            r.add(key, fn.loc(v), bool(allowed), allowed if allowed else
+                  "`static %s` is modified at %s and so carries data from one call to the next - across different "
+                  "reader objects and image files: a later image can be answered from an earlier one's data" %
+                  (v.get("n"), fn.loc(written[0])))
+    return r
+
+
 def run(ctx):
     prog = ctx.prog("dfs", "N")
     return [rule_hint_name(prog), rule_gzip_only(prog), rule_zlib_census(prog), rule_all_members(prog),
-            rule_openers(prog), rule_read_length(prog), rule_counters_after_reset(prog)]
+            rule_openers(prog), rule_read_length(prog), rule_counters_after_reset(prog),
+            rule_no_carried_static_state(prog)]
 
 
 SELFTESTS = [
